@@ -134,10 +134,13 @@ where
             })
             .collect::<Result<Vec<_>, Error>>()?;
 
+        // `end` lies in (M - A, M], so it can never be the first position of the last
+        // chunk; `start` (a multiple of A) can: the payload then fits in the last chunk.
         let last_chunk = (M - A..M)
             .map(|i| {
-                let is_end = ng.is_equal_to_fixed(layouter, &end, F::from(i as u64))?;
-                is_data = ng.xor(layouter, &[is_data.clone(), is_end])?;
+                let limit = if i == M - A { &start } else { &end };
+                let is_limit = ng.is_equal_to_fixed(layouter, limit, F::from(i as u64))?;
+                is_data = ng.xor(layouter, &[is_data.clone(), is_limit])?;
                 Ok(is_data.clone())
             })
             .collect::<Result<Vec<_>, Error>>()?;
